@@ -285,3 +285,70 @@ pub fn dead_worker_round(seed: u64) -> Result<(Option<Viol>, u64), String> {
     util::remove_dir(&dir);
     res
 }
+
+
+/// The lock service fails for the contender (flock returns ENOLCK / EINTR / EIO instead of EWOULDBLOCK) while an
+/// owner is alive: the attempt must still fail with an error ("every other attempt to open it fails"), whatever the
+/// reason the lock could not be taken. Returns (violation, attempts made with a failing flock).
+pub fn flock_fault_round(ci: &CleanImage) -> Result<(Option<Viol>, u64), String> {
+    let dir = util::fresh_dir("c13l");
+    store::write_image(&dir, &ci.img);
+    let replay = json!({"kind": "c13", "mode": "flock_fault"});
+    let owner = guarded(|| RaftLog::<V>::open(ci.cfg.to_config(&dir))).map_err(|p| p)?.map_err(|e| e.to_string())?;
+    let mut res = None;
+    let mut n = 0u64;
+    for errno in [libc::ENOLCK, libc::EINTR, libc::EIO, libc::ENOSYS] {
+        for as_dump in [false, true] {
+            crate::shim::FLOCK_FAULT.with(|c| c.set(errno));
+            let r = try_open(&dir, &ci.cfg, as_dump);
+            crate::shim::FLOCK_FAULT.with(|c| c.set(0));
+            n += 1;
+            match r {
+                Ok(false) => {}
+                Ok(true) => {
+                    res = Some(v("two_owners:lock_could_not_be_taken", format!("a RaftLog owns the directory; a second {} was opened although its flock() call failed with errno {}", if as_dump { "Dump" } else { "RaftLog" }, errno), replay.clone()));
+                }
+                Err(p) => res = Some(v("panic_in_open", p, replay.clone())),
+            }
+            if res.is_some() {
+                break;
+            }
+        }
+        if res.is_some() {
+            break;
+        }
+    }
+    drop(owner);
+    util::remove_dir(&dir);
+    Ok((res, n))
+}
+
+/// "Once the owner is dropped the next attempt succeeds" - also while a `dump_data()` snapshot taken from the
+/// owner is still alive (a snapshot is a value, not an owner).
+pub fn snapshot_outlives_owner_round(ci: &CleanImage) -> Result<Option<Viol>, String> {
+    let dir = util::fresh_dir("c13s");
+    store::write_image(&dir, &ci.img);
+    let replay = json!({"kind": "c13", "mode": "snapshot_outlives_owner"});
+    let owner = guarded(|| RaftLog::<V>::open(ci.cfg.to_config(&dir))).map_err(|p| p)?.map_err(|e| e.to_string())?;
+    let mut snap = owner.dump_data();
+    drop(owner);
+    let mut res = None;
+    for as_dump in [false, true] {
+        match try_open(&dir, &ci.cfg, as_dump) {
+            Ok(true) => {}
+            Ok(false) => {
+                res = Some(v("still_locked_after_owner_dropped:snapshot_alive", format!("the owner was dropped; a dump_data() snapshot taken from it is still alive, and {} fails", if as_dump { "Dump::new" } else { "RaftLog::open" }), replay.clone()));
+                break;
+            }
+            Err(p) => {
+                res = Some(v("panic_in_open", p, replay.clone()));
+                break;
+            }
+        }
+    }
+    // the snapshot is still usable
+    let _ = guarded(|| snap.iter().count());
+    drop(snap);
+    util::remove_dir(&dir);
+    Ok(res)
+}
